@@ -8,11 +8,11 @@ SYSINFO_C = os.path.join(cjob.REPO, 'src/host/layer23/src/common/sysinfo.c')
 SYSINFO_H = os.path.join(cjob.REPO, 'src/host/layer23/include/osmocom/bb/common/sysinfo.h')
 WINDOW_Q = [0, 1, 2, 3, 511, 512, 1022, 1023]
 META = dict(
-    functions=['trx_if.c: trx_if_cmd_setfh (SETFH composed from the decoded list; real snprintf semantics, band plan of gsm_arfcn2freq10 incl. the PCS flag)', 'sysinfo.c: gsm48_decode_sysinfo4 (verbatim text, real sysinfo.h/gsm_04_08.h; other IE decoders stubbed) as caller of the decoder', 'sysinfo.c: gsm48_decode_mobile_alloc (verbatim text extracted from the working tree by brace matching, compiled with the FREQ_TYPE_* macros read from sysinfo.h)'],
+    functions=['gsm48_rr.c: gsm48_rr_render_ma (verbatim text; containers osmocom_ms/gsm322_cellsel/gsm_settings reduced to the members it reads) + gsm322.c: arfcn2index (verbatim) as caller of the decoder for assignment/handover', 'trx_if.c: trx_if_cmd_setfh (SETFH composed from the decoded list; real snprintf semantics, band plan of gsm_arfcn2freq10 incl. the PCS flag)', 'sysinfo.c: gsm48_decode_sysinfo4 (verbatim text, real sysinfo.h/gsm_04_08.h; other IE decoders stubbed) as caller of the decoder', 'sysinfo.c: gsm48_decode_mobile_alloc (verbatim text extracted from the working tree by brace matching, compiled with the FREQ_TYPE_* macros read from sysinfo.h)'],
     bounds=dict(quick='bitmap length len = 0..9, si4 in {0,1}; all 8*len bitmap bits symbolic (one variable per bit); cell allocation = symbolic membership of each ARFCN of the window %s (other ARFCNs absent), other mask bits of those entries symbolic; loops fully unrolled (1024 + 1024 + 64 iterations)' % WINDOW_Q,
                 thorough='as quick plus a cell allocation of 72 ARFCNs (the 8 above + 64 consecutive ones, all members): 1- and 2-octet bitmaps fully symbolic, and the 8-octet bitmap with its first and last octet symbolic and the six in between all ones, so that all 64 output entries are used'),
     stubs=['LOGP -> empty', 'struct gsm_sysinfo_freq reduced to its mask octet (sizeof read from the compiler)', 'VLA via llvm.stacksave/alloca with the concrete size of each run'],
-    outside=['cell allocations containing ARFCNs outside the window', 'callers (sysinfo.c:997, gsm48_rr.c:4021) are read for the buffer-size contract only: hopping[64], ma[len], freq[1024]'],
+    outside=['cell allocations containing ARFCNs outside the window', 'gsm48_rr_render_ma(): the branch FREQ_NOT_IMPL (a listed channel missing from the supported-frequency map; every channel is supported in the jobs - the query with unsupported channels came back unknown), the frequency-list and frequency-channel-sequence branches, a cell channel description inside the channel description; gsm48_rr_rx_ass_cmd()/handover command parsing that fill the channel description are not encoded (ms.h does not compile against the bundled libosmocore)'],
     assumptions=['order of 3GPP TS 44.018 10.5.2.21: ascending ARFCN with ARFCN 0 last; bit i (LSB of the last octet first) refers to the i-th cell channel'],
     explanation='functional oracle built as z3 terms: position of every window ARFCN in the cell-channel list, selected iff member and bit set and no earlier flagged bit points beyond |CA|; output cell k == the k-th selected ARFCN; hopp_len == count; '
                 'len > 8 -> -EINVAL and nothing written; with si4 the HOPP flag exactly on the output; every load/store inside its object (f[], hopping[64], ma[len], freq[1024])')
@@ -38,6 +38,10 @@ def jobs(tier, seed):
             out.append(('si4-call-site.%struncated.len=%d' % ('chan-desc.' if cd else '', L), 'c_si4', dict(length=L, chan_desc=cd, cut=1)))
     for L in (1, 2):
         out.append(('si1-refresh.len=%d' % L, 'c_si1', dict(length=L)))
+    out.append(('rr-render-ma.len=0', 'c_rrma', dict(length=0)))
+    for L in ((1, 2) if tier == 'quick' else (1, 2, 3, 8)):
+        for pcs in (0, 1):
+            out.append(('rr-render-ma.len=%d.pcs=%d' % (L, pcs), 'c_rrma', dict(length=L, pcs=pcs)))
     # downstream consumer of the hopping list: the SETFH command trxcon composes from it (shared with C05)
     for band, n in ((900, 64), (1800, 8), (1900, 8), (850, 8), (1800, 63), (1800, 64), (1900, 64)):
         out.append(('trxcon.composes.SETFH.band%d.n=%d' % (band, n), 'c_setfh_compose', dict(band=band, n=n)))
@@ -167,6 +171,117 @@ def si4_src():
     """gsm48_decode_mobile_alloc() and gsm48_decode_sysinfo4() verbatim from the working tree, real headers, other IE decoders stubbed"""
     src = open(SYSINFO_C).read()
     return SI4_PRE + _extract_fn(src, 'int gsm48_decode_mobile_alloc(') + '\n' + _extract_fn(src, 'int gsm48_decode_sysinfo4(') + '\n'
+
+
+GSM322_C = os.path.join(cjob.REPO, 'src/host/layer23/src/mobile/gsm322.c')
+GSM48_RR_C = os.path.join(cjob.REPO, 'src/host/layer23/src/mobile/gsm48_rr.c')
+RRMA_PRE = SI4_PRE + """
+#include <osmocom/core/timer.h>
+#include <osmocom/gsm/gsm_utils.h>
+#include <osmocom/bb/mobile/gsm48_rr.h>
+/* containers of the caller reduced to the members gsm48_rr_render_ma() reads (ms.h does not compile against the bundled libosmocore) */
+struct gsm322_cellsel { uint16_t arfcn; struct gsm48_sysinfo *si; };
+struct gsm_settings { uint8_t freq_map[128+38]; };
+struct osmocom_ms { struct gsm322_cellsel cellsel; struct gsm_settings settings; };
+uint8_t vf_pcs; uint8_t vf_fl_calls;
+bool gsm_refer_pcs(uint16_t cell_arfcn, const struct gsm48_sysinfo *cell_s) { return vf_pcs; }
+char *gsm_print_arfcn(uint16_t arfcn) { return (char *)0; }
+/* the cell channel description / frequency list decoder is not the subject: it only counts its calls */
+int gsm48_decode_freq_list(struct gsm_sysinfo_freq *f, uint8_t *cd, uint8_t len, uint8_t mask, uint8_t frqt) { vf_fl_calls++; return 0; }
+"""
+
+
+def rrma_src():
+    """gsm48_rr_render_ma() (gsm48_rr.c) + arfcn2index() (gsm322.c) + gsm48_decode_mobile_alloc() (sysinfo.c), all verbatim"""
+    return (RRMA_PRE + _extract_fn(open(SYSINFO_C).read(), 'int gsm48_decode_mobile_alloc(') + '\n' + _extract_fn(open(GSM322_C).read(), 'int arfcn2index(') + '\n'
+            + _extract_fn(open(GSM48_RR_C).read(), 'static int gsm48_rr_render_ma(struct osmocom_ms *ms, struct gsm48_rr_cd *cd,\n').replace('static int gsm48_rr_render_ma(', 'int gsm48_rr_render_ma(', 1) + '\n')
+
+
+RRMA_F = ['sizeof(struct osmocom_ms)', 'offsetof(struct osmocom_ms, cellsel.arfcn)', 'offsetof(struct osmocom_ms, cellsel.si)', 'offsetof(struct osmocom_ms, settings.freq_map)',
+          'sizeof(struct gsm48_rr_cd)', 'offsetof(struct gsm48_rr_cd, h)', 'offsetof(struct gsm48_rr_cd, mob_alloc_lv)', 'offsetof(struct gsm48_rr_cd, freq_list_lv)',
+          'offsetof(struct gsm48_rr_cd, freq_seq_lv)', 'offsetof(struct gsm48_rr_cd, cell_desc_lv)', 'sizeof(struct gsm48_sysinfo)', 'offsetof(struct gsm48_sysinfo, freq)',
+          'sizeof(((struct gsm48_sysinfo *)0)->freq[0])', 'GSM48_RR_CAUSE_NO_CELL_ALLOC_A', 'GSM48_RR_CAUSE_FREQ_NOT_IMPL', 'GSM48_RR_CAUSE_ABNORMAL_UNSPEC']
+RRMA_IDX = {0: 0, 1: 1, 2: 2, 3: 3, 511: 511, 512: 512, 1022: 1022, 1023: 1023}       # arfcn2index of the window ARFCNs without the PCS flag; 512|PCS -> 1024
+
+
+def c_rrma(hid, length, pcs=0, symbolic_map=False, timeout_ms=60000):
+    """call site (assignment / handover / immediate assignment): gsm48_rr_render_ma() with a channel description carrying a Mobile Allocation
+    of `length` octets returns the list gsm48_decode_mobile_alloc() gives for (stored cell allocation, those octets), converted to band ARFCNs
+    (PCS flag on 512..810 when the cell refers to PCS), cause NO_CELL_ALLOC_A for an empty list and FREQ_NOT_IMPL iff a listed channel is not
+    in the supported-frequency map; the serving-cell flags are left alone"""
+    import tempfile
+    j = cjob.CJob(hid, timeout_ms)
+    if 'rrma' not in _MOD:
+        with tempfile.TemporaryDirectory(prefix='vf_c20t_') as td:
+            pth = os.path.join(td, 'rrma.c'); open(pth, 'w').write(rrma_src())
+            _MOD['rrma'] = llsym.parse_module(llsym.compile_ir(pth, SI4_INCS))
+    M = _MOD['rrma']
+    o = cjob.offsets(RRMA_PRE, RRMA_F, SI4_INCS)
+    mssz, aoff, sioff, fmoff, cdsz, hoff, maoff, floff, fsoff, cdoff, ssz, foff, fsz, c_nocell, c_notimpl, c_abn = (o[k] for k in RRMA_F)
+    window = WINDOW_Q
+    ex = Exec(M, max_iter=1100)
+    ca = {a: j.var(ex, 'ca[%d]' % a, 0, 1) for a in window}; hp = {a: j.var(ex, 'hopp_pre[%d]' % a, 0, 1) for a in window}
+    pcs = C(pcs)
+    hop = [j.var(ex, 'ma_pre[%d]' % k, 0, 65535) for k in range(64)]; hl = j.var(ex, 'ma_len_pre', 0, 255)
+    bits = [[j.var(ex, 'ma[%d].bit%d' % (i, k), 0, 1) for k in range(8)] for i in range(length)]
+    mab = [llsym.from_bits([b.e for b in bits[i]]) for i in range(length)]
+    # supported-frequency map: the octets holding the window channels symbolic, every other channel supported
+    fmb = sorted({i >> 3 for i in RRMA_IDX.values()} | {1024 >> 3}) if symbolic_map else []
+    fm = {b: C(0x00 if b in (0, 128) else 0xff) for b in fmb}        # ARFCN 0..7 and PCS 512..519 not supported by the phone
+    sobj = ex.new_obj(ssz, 'sysinfo'); msobj = ex.new_obj(mssz, 'ms'); cdobj = ex.new_obj(cdsz, 'cd'); mao = ex.new_obj(128, 'ma'); mlo = ex.new_obj(1, 'ma_len')
+    cells = {foff + a * fsz: (1, llsym.from_bits([ca[a].e, hp[a].e] + [z3.IntVal(0)] * 6)) for a in window}
+    sc = {k: (1, C(0)) for k in range(ssz) if k not in cells}; sc.update(cells)
+    mc = {k: (1, C(0)) for k in range(mssz) if not (sioff <= k < sioff + 8)}
+    mc[sioff] = (8, Ptr(sobj, C(0)))
+    for b in range(166): mc[fmoff + b] = (1, fm[b] if b in fm else C(0xff))
+    cc = {k: (1, C(0)) for k in range(cdsz)}
+    cc[hoff] = (1, C(1)); cc[maoff] = (1, C(length))
+    for i in range(length): cc[maoff + 1 + i] = (1, mab[i])
+    out1 = ex.run('@gsm48_rr_render_ma', [Ptr(msobj, C(0)), Ptr(cdobj, C(0)), Ptr(mao, C(0)), Ptr(mlo, C(0))],
+                  {sobj: sc, msobj: mc, cdobj: cc, mao: {2 * k: (2, hop[k]) for k in range(64)}, mlo: {0: (1, hl)}, 'g:@vf_pcs': {0: (1, pcs)}, 'g:@vf_fl_calls': {0: (1, C(0))}})
+    j.witness(ex, [])
+    j.memory_obligations(ex, [])
+    if j.stats.failures: return j.stats
+    ret = out1.ret
+    if length == 0:
+        # no Mobile Allocation, no frequency list, no frequency channel sequence: nothing tells a sequence
+        j.must_hold(ex, 'no-hopping-information->ABNORMAL_UNSPEC', [], ret.e == c_abn)
+        j.stats.extra['ir_steps'] = ex.steps
+        return j.stats
+    ex2 = Exec(M, max_iter=1100); ex2.assumes = ex.assumes
+    freq = ex2.new_obj(1024 * fsz, 'freq'); ma = ex2.new_obj(length, 'mab'); hopo = ex2.new_obj(128, 'hopping'); hlo = ex2.new_obj(1, 'hopp_len')
+    fc = {a * fsz: (1, C(0)) for a in range(1024)}
+    for a in window: fc[a * fsz] = (1, llsym.from_bits([ca[a].e, hp[a].e] + [z3.IntVal(0)] * 6))
+    out2 = ex2.run('@gsm48_decode_mobile_alloc', [Ptr(freq, C(0)), Ptr(ma, C(0)), C(length), Ptr(hopo, C(0)), Ptr(hlo, C(0)), C(0)],
+                   {freq: fc, ma: {i: (1, mab[i]) for i in range(length)}, hopo: {2 * k: (2, hop[k]) for k in range(64)}, hlo: {0: (1, hl)}})
+    n2 = out2.mem[hlo][0][1].e
+    want = []; sup = []
+    for k in range(64):
+        h = out2.mem[hopo][2 * k][1].e
+        w = z3.If(z3.And(h >= 512, h <= 810, pcs.e == 1), h + 0x8000, h)
+        want.append(w)
+        idx = z3.If(w >= 0x8000, w - 0x8000 - 512 + 1024, w)
+        byte = I0 = None
+        sel = z3.IntVal(0xff)
+        for b in fmb: sel = z3.If(idx / 8 == b, fm[b].e, sel)
+        # bit (idx % 8) of the selected octet
+        bit = z3.IntVal(0)
+        for t in range(8): bit = z3.If(idx % 8 == t, (sel / (1 << t)) % 2, bit)
+        sup.append(bit == 1)
+    allsup = z3.And([z3.Or(k >= n2, sup[k]) for k in range(64)])
+    s1 = out1.mem
+    rdma = lambda k: ex._read_at(s1[mao], mao, 2 * k, 2, False).e
+    exp_ret = z3.If(n2 < 1, c_nocell, z3.If(allsup, 0, c_notimpl))
+    sret = z3.If(ret.e >= (1 << 31), ret.e - (1 << 32), ret.e)
+    j.must_hold(ex, 'cause==f(list-of-the-decoder,supported-map)', [], sret == exp_ret)
+    j.must_hold(ex, 'ma_len==hopp_len-of-the-decoder', [], ex._read_at(s1[mlo], mlo, 0, 1, False).e == n2)
+    for k in range(64):
+        j.must_hold(ex, 'ma[%d]==band-ARFCN-of-decoder-entry' % k, [], z3.Implies(z3.And(sret == 0, k < n2), rdma(k) == want[k]))
+    for a in window:
+        j.must_hold(ex, 'freq[%d].mask-untouched' % a, [], ex._read_at(s1[sobj], sobj, foff + a * fsz, 1, False).e == fc[a * fsz][1].e)
+    j.must_hold(ex, 'stored-cell-allocation-used-(no-cell-channel-description)', [], ex._read_at(s1['g:@vf_fl_calls'], 'g:@vf_fl_calls', 0, 1, False).e == 0)
+    j.stats.extra['ir_steps'] = ex.steps + ex2.steps
+    return j.stats
 
 
 SI4_F = ['sizeof(struct gsm48_sysinfo)', 'offsetof(struct gsm48_sysinfo, freq)', 'sizeof(((struct gsm48_sysinfo *)0)->freq[0])', 'offsetof(struct gsm48_sysinfo, hopping)',
@@ -478,6 +593,60 @@ def replay_si1(body):
     return (1, 'REPRODUCED on native build: SI1 with a changed cell allocation after SI1+SI4: hopping list has %s entries, decoding the stored SI4 bitmap against the new cell allocation gives %s' % (m.group(2), m.group(3))) if bad else (0, 'native agrees: ' + out.strip())
 
 
+RRMA_DRV = r"""
+#include <stdio.h>
+#include <stdlib.h>
+int main(int argc, char **argv) {
+  /* argv: len pcs ma_len_pre (ca hopp)*8 ma* ma_pre*64 nmap (byte val)* */
+  int k = 1; int len = atoi(argv[k++]); vf_pcs = atoi(argv[k++]); int mlp = atoi(argv[k++]);
+  static const uint16_t win[8] = { %s };
+  struct gsm48_sysinfo *si = calloc(1, sizeof(*si)); struct osmocom_ms *ms = calloc(1, sizeof(*ms)); struct gsm48_rr_cd *cd = calloc(1, sizeof(*cd));
+  ms->cellsel.si = si; memset(ms->settings.freq_map, 0xff, sizeof(ms->settings.freq_map));
+  for (int i = 0; i < 8; i++) { int c = atoi(argv[k++]); int h = atoi(argv[k++]); si->freq[win[i]].mask = c | (h << 1); }
+  cd->h = 1; cd->mob_alloc_lv[0] = len;
+  for (int i = 0; i < len; i++) cd->mob_alloc_lv[1 + i] = atoi(argv[k++]);
+  uint16_t *ma = malloc(64 * sizeof(uint16_t)), ref[64]; uint8_t *ma_len = malloc(1), rl;
+  for (int i = 0; i < 64; i++) ref[i] = ma[i] = atoi(argv[k++]);
+  *ma_len = rl = mlp;
+  int nmap = atoi(argv[k++]);
+  for (int i = 0; i < nmap; i++) { int b = atoi(argv[k++]); ms->settings.freq_map[b] = atoi(argv[k++]); }
+  struct gsm_sysinfo_freq *fr = malloc(sizeof(si->freq)); memcpy(fr, si->freq, sizeof(si->freq));
+  int rc = gsm48_rr_render_ma(ms, cd, ma, ma_len);
+  int want = 0, same = 1;
+  if (len == 0) want = GSM48_RR_CAUSE_ABNORMAL_UNSPEC;
+  else {
+    uint8_t *mab = malloc(len); memcpy(mab, cd->mob_alloc_lv + 1, len);
+    gsm48_decode_mobile_alloc(fr, mab, len, ref, &rl, 0);
+    if (rl < 1) want = GSM48_RR_CAUSE_NO_CELL_ALLOC_A;
+    for (int i = 0; i < rl; i++) { if (ref[i] >= 512 && ref[i] <= 810 && vf_pcs) ref[i] |= 0x8000;
+      int idx = (ref[i] & 0x8000) ? (ref[i] & 1023) - 512 + 1024 : (ref[i] & 1023);
+      if (!want && !(ms->settings.freq_map[idx >> 3] & (1 << (idx & 7)))) want = GSM48_RR_CAUSE_FREQ_NOT_IMPL; }
+    same = (*ma_len == rl) && !memcmp(fr, si->freq, sizeof(si->freq)) && vf_fl_calls == 0;
+    if (rc == 0) for (int i = 0; i < rl; i++) same = same && ma[i] == ref[i];
+  }
+  printf("rc %%d want %%d ma_len %%d reference %%d same %%d\n", rc, want, *ma_len, rl, same);
+  return 0;
+}
+""" % ', '.join(str(a) for a in WINDOW_Q)
+
+
+def replay_rrma(body):
+    sh = body['shape']; i = body['inputs']; L = sh['length']
+    args = [L, sh.get('pcs', 0), i.get('ma_len_pre', 0)]
+    for a in WINDOW_Q: args += [i.get('ca[%d]' % a, 0), i.get('hopp_pre[%d]' % a, 0)]
+    args += [sum(i.get('ma[%d].bit%d' % (k, b), 0) << b for b in range(8)) for k in range(L)] + [i.get('ma_pre[%d]' % k, 0) for k in range(64)]
+    fm = {int(k[9:-1]): v for k, v in i.items() if k.startswith('freq_map[')}
+    if sh.get('symbolic_map'):
+        fm = {0: 0, 128: 0}
+    args += [len(fm)] + [x for kv in sorted(fm.items()) for x in kv]
+    rc, out = cjob.run_native(rrma_src() + RRMA_DRV, None, SI4_INCS, args=args)
+    if rc is None: return 2, out
+    if rc != 0: return 1, 'REPRODUCED on native build (ASan/UBSan): ' + out[-600:]
+    m = re.search(r'rc (-?\d+) want (-?\d+) ma_len (\d+) reference (\d+) same (\d+)', out)
+    bad = int(m.group(1)) != int(m.group(2)) or int(m.group(5)) != 1
+    return (1, 'REPRODUCED on native build: gsm48_rr_render_ma() with a %d-octet Mobile Allocation: cause %s (expected %s), %s channels, the decoder gives %s for the same cell allocation and bitmap' % (L, m.group(1), m.group(2), m.group(3), m.group(4))) if bad else (0, 'native agrees: ' + out.strip())
+
+
 def replay_si4(body):
     sh = body['shape']; i = body['inputs']; L = sh['length']
     ca = [(a, i.get('ca[%d]' % a, 0) + 2 * i.get('hopp_pre[%d]' % a, 0)) for a in WINDOW_Q]
@@ -496,6 +665,7 @@ def replay(body):
     sh = body['shape']; i = body['inputs']
     if body.get('func') == 'c_si4': return replay_si4(body)
     if body.get('func') == 'c_si1': return replay_si1(body)
+    if body.get('func') == 'c_rrma': return replay_rrma(body)
     if body.get('func') == 'c_setfh_compose':
         from . import trxc
         return trxc.replay(body)
